@@ -11,8 +11,10 @@ open AGH
 
 /-- An oracle that accepts every name as it is. -/
 def O0 : Oracle := { norm := fun b => some b, valid := fun _ => true }
-/-- Gateway 0.0.0.1/24, pool 0.0.0.10–0.0.0.12, lease time 60 s. -/
+/-- Gateway 0.0.0.1/24, pool 0.0.0.10–0.0.0.12, lease time 60 s; the tree as it is. -/
 def c0 : Conf := { gw := 1, maskLen := 24, start := 10, stop := 12, leaseTime := 60, sid := 2 }
+/-- The same configuration on the code before the repairs of R3 and R4. -/
+def c0old : Conf := { c0 with fixR3 := false, fixR4 := false }
 def mA : Bytes := [2, 0, 0, 0, 0, 1]
 def mB : Bytes := [2, 0, 0, 0, 0, 2]
 def mC : Bytes := [2, 0, 0, 0, 0, 3]
@@ -21,6 +23,7 @@ def name10 : Bytes := [48, 45, 48, 45, 48, 45, 49, 48]
 def alpha : Bytes := [97, 108, 112, 104, 97]
 
 theorem c0_valid : validate c0 = true := by decide
+theorem c0old_valid : validate c0old = true := by decide
 
 /-- R3: a reservation named `0-0-0-10`; a client is offered 0.0.0.10 and requests it without a hostname. -/
 def opsR3 : List Op := [.addStatic mA 20 name10, .discover mB, .request mB 2 true 10 0 []]
@@ -42,19 +45,28 @@ def opsMixed : List Op :=
 
 /-! ### restart of a fully named table -/
 
-/-- What `resetLoop` needs of the records to re-add every one of them. -/
+/-- What `resetLoop` needs of the records to re-add every one of them unchanged. -/
 structure Loadable (O : Oracle) (c : Conf) (d : List DLease) : Prop where
   subnet : ∀ x ∈ d, x.static = true → inSubnet c x.ip = true
   pool : ∀ x ∈ d, x.static = false → c.start ≤ x.ip ∧ x.ip ≤ c.stop
-  named : ∀ x ∈ d, x.static = false → x.host ≠ [] ∧ O.norm x.host = some x.host ∧ O.valid x.host = true
+  named : ∀ x ∈ d, loadHost O c x = x.host
   exp0 : ∀ x ∈ d, x.static = true → x.exp = 0
   distinct : d.Pairwise (fun x y => x.host = [] ∨ x.host ≠ y.host)
+
+theorem Loadable.tail {O : Oracle} {c : Conf} {x : DLease} {rest : List DLease} (hl : Loadable O c (x :: rest)) :
+    Loadable O c rest :=
+  { subnet := fun y hy => hl.subnet y (List.mem_cons_of_mem _ hy)
+    pool := fun y hy => hl.pool y (List.mem_cons_of_mem _ hy)
+    named := fun y hy => hl.named y (List.mem_cons_of_mem _ hy)
+    exp0 := fun y hy => hl.exp0 y (List.mem_cons_of_mem _ hy)
+    distinct := (List.pairwise_cons.1 hl.distinct).2 }
 
 theorem validHost_idem {O : Oracle} {h : Bytes} {ip : Nat} (h1 : h ≠ []) (h2 : O.norm h = some h) (h3 : O.valid h = true) :
     validHost O h ip = h := by
   unfold validHost
   simp [h2, h1, h3]
 
+/-- Loading a loadable file into a table whose index has none of its names re-creates every record. -/
 theorem resetLoop_loadable (O : Oracle) (c : Conf) : ∀ (d : List DLease) (s : State), Loadable O c d →
     (∀ x ∈ d, x.host ≠ [] → s.hosts x.host = none) →
     (resetLoop O c d s).leases.map Lease.toDisk = s.leases.map Lease.toDisk ++ d := by
@@ -63,20 +75,12 @@ theorem resetLoop_loadable (O : Oracle) (c : Conf) : ∀ (d : List DLease) (s : 
   | nil => intro s _ _; simp [resetLoop]
   | cons x rest ih =>
     intro s hl hfree
-    have hrestL : Loadable O c rest :=
-      { subnet := fun y hy => hl.subnet y (List.mem_cons_of_mem _ hy)
-        pool := fun y hy => hl.pool y (List.mem_cons_of_mem _ hy)
-        named := fun y hy => hl.named y (List.mem_cons_of_mem _ hy)
-        exp0 := fun y hy => hl.exp0 y (List.mem_cons_of_mem _ hy)
-        distinct := (List.pairwise_cons.1 hl.distinct).2 }
-    have hhost : (if x.static = true then x.host else validHost O x.host x.ip) = x.host := by
-      cases hs : x.static
-      · obtain ⟨h1, h2, h3⟩ := hl.named x List.mem_cons_self hs
-        simp [validHost_idem h1 h2 h3]
-      · simp
+    have hhost : loadHost O c x = x.host := hl.named x List.mem_cons_self
+    have hlease : loadLease O c x s.nextId =
+        { id := s.nextId, mac := x.mac, ip := x.ip, host := x.host, static := x.static, exp := x.exp } := by
+      unfold loadLease; rw [hhost]
     unfold resetLoop
-    simp only []
-    rw [hhost]
+    rw [hlease]
     have hadd : addLease c { id := s.nextId, mac := x.mac, ip := x.ip, host := x.host, static := x.static, exp := x.exp } s.fresh.2 =
         .ok (addLeaseOK c { id := s.nextId, mac := x.mac, ip := x.ip, host := x.host, static := x.static, exp := x.exp } s.fresh.2) := by
       unfold addLease
@@ -98,7 +102,7 @@ theorem resetLoop_loadable (O : Oracle) (c : Conf) : ∀ (d : List DLease) (s : 
       rw [if_neg h3]
     rw [hadd]
     simp only []
-    rw [ih _ hrestL]
+    rw [ih _ hl.tail]
     · have : Lease.toDisk { id := s.nextId, mac := x.mac, ip := x.ip, host := x.host, static := x.static, exp := x.exp } = x := by
         unfold Lease.toDisk
         cases hs : x.static
@@ -120,25 +124,42 @@ theorem resetLoop_loadable (O : Oracle) (c : Conf) : ∀ (d : List DLease) (s : 
       · rw [if_neg hx]
         exact hfree y (List.mem_cons_of_mem _ hy) hne
 
-/-- A restart restores the table exactly (in file order) when the file mirrors
-it, every dynamic lease carries a name that normalisation leaves alone, and no
-two leases share a name. -/
+theorem resetLoop_disk (O : Oracle) (c : Conf) : ∀ (d : List DLease) (s : State),
+    (resetLoop O c d s).disk = s.disk ∧ (resetLoop O c d s).now = s.now := by
+  intro d
+  induction d with
+  | nil => intro s; exact ⟨rfl, rfl⟩
+  | cons x rest ih =>
+    intro s
+    unfold resetLoop
+    cases hadd : addLease c (loadLease O c x s.nextId) s.fresh.2 with
+    | error e => exact ih _
+    | ok s' =>
+      obtain ⟨_, _, h3, h4⟩ := addLease_leases hadd
+      have := ih s'
+      simp only []
+      rw [this.1, this.2, h3, h4]; exact ⟨rfl, rfl⟩
+
+/-- A restart restores the table exactly as the file lists it — whatever order
+the file is in — when the file mirrors the table, reservations lie in the
+subnet, loading leaves every dynamic name alone, and no two leases share a name. -/
 theorem restart_restores {O : Oracle} {c : Conf} {s : State} (h : Inv c s) (hm : Mirror s)
     (hsub : ∀ l ∈ s.leases, l.static = true → inSubnet c l.ip = true)
-    (hnamed : ∀ l ∈ s.leases, l.static = false → l.host ≠ [] ∧ O.norm l.host = some l.host ∧ O.valid l.host = true)
+    (hnamed : ∀ l ∈ s.leases, l.static = false → loadHost O c l.toDisk = l.host)
     (huniq : ∀ l₁ ∈ s.leases, ∀ l₂ ∈ s.leases, l₁.host = l₂.host → l₁.host ≠ [] → l₁ = l₂) :
-    (restart O c s).leases.map Lease.toDisk = sortByHost (s.leases.map Lease.toDisk) := by
+    ((restart O c s).leases.map Lease.toDisk).Perm (s.leases.map Lease.toDisk) ∧
+    (restart O c s).disk = s.disk ∧
+    (∀ d, s.disk = some d → (restart O c s).leases.map Lease.toDisk = d) := by
   unfold restart
   simp only []
-  rcases hm with hd | ⟨hd, hl⟩
+  rcases hm with ⟨d, hd, hp⟩ | ⟨hd, hl⟩
   · rw [hd]
     simp only []
-    have hp := sortByHost_perm (s.leases.map Lease.toDisk)
-    have hmem : ∀ x ∈ sortByHost (s.leases.map Lease.toDisk), ∃ l ∈ s.leases, x = l.toDisk := by
+    have hmem : ∀ x ∈ d, ∃ l ∈ s.leases, x = l.toDisk := by
       intro x hx
       obtain ⟨l, hl, rfl⟩ := List.mem_map.1 (hp.mem_iff.1 hx)
       exact ⟨l, hl, rfl⟩
-    have hload : Loadable O c (sortByHost (s.leases.map Lease.toDisk)) := by
+    have hload : Loadable O c d := by
       refine ⟨?_, ?_, ?_, ?_, ?_⟩
       · intro x hx hs
         obtain ⟨l, hl, rfl⟩ := hmem x hx
@@ -146,9 +167,11 @@ theorem restart_restores {O : Oracle} {c : Conf} {s : State} (h : Inv c s) (hm :
       · intro x hx hs
         obtain ⟨l, hl, rfl⟩ := hmem x hx
         exact h.dynPool l hl (by simpa [Lease.toDisk] using hs)
-      · intro x hx hs
+      · intro x hx
         obtain ⟨l, hl, rfl⟩ := hmem x hx
-        exact hnamed l hl (by simpa [Lease.toDisk] using hs)
+        cases hs : l.static
+        · exact hnamed l hl hs
+        · unfold loadHost; simp [Lease.toDisk, hs]
       · intro x hx hs
         obtain ⟨l, hl, rfl⟩ := hmem x hx
         have : l.static = true := by simpa [Lease.toDisk] using hs
@@ -172,11 +195,19 @@ theorem restart_restores {O : Oracle} {c : Conf} {s : State} (h : Inv c s) (hm :
             · exact .inl hy
             · exact .inr (fun e => hy (by rw [e, h1]))
           · exact .inr (fun e => h1 e.symm)
-    have := resetLoop_loadable O c _ { State.init with nextId := s.nextId, now := s.now, disk := s.disk } hload
+    have hres := resetLoop_loadable O c d { State.init with nextId := s.nextId, now := s.now, disk := s.disk } hload
       (by intro x _ _; rfl)
-    rw [hd] at this
-    simpa [State.init] using this
+    rw [hd] at hres
+    have hres' : (resetLoop O c d { State.init with nextId := s.nextId, now := s.now, disk := some d }).leases.map Lease.toDisk = d := by
+      simpa [State.init] using hres
+    refine ⟨by rw [hres']; exact hp, ?_, ?_⟩
+    · exact (resetLoop_disk O c d _).1
+    · intro d' hd'
+      cases hd'
+      exact hres'
   · rw [hd, hl]
-    simp [State.init, sortByHost]
+    refine ⟨by simp [State.init], rfl, ?_⟩
+    intro d hd'
+    cases hd'
 
 end AGH.C10
